@@ -137,9 +137,41 @@ def _x5(ctx):
         ctx.ok(R, m, None, "no memoised helper in the network model (0 sites)", nontrivial=False)
 
 
+def _x6(ctx):
+    R = "C30-X6"
+    ctx.doc(R, "physical-fanout lookups answer 'not found' for a dimension the component is not distributed along: a search loop that leaves by `break` does not hand out its loop variable afterwards unless a for-else resets it "
+               "(after an unsuccessful search the variable holds the LAST entry)")
+    SP = "accelforge/frontend/arch/spatialable.py"
+    m = ctx.module(SP, R)
+    n = 0
+    for fi in m.funcs.values():
+        pm = None
+        for lp in [x for x in fi.stmts() if isinstance(x, ast.For) and isinstance(x.target, ast.Name)]:
+            has_break = any(isinstance(b, ast.Break) for b in ast.walk(lp))
+            if not has_break:
+                continue
+            n += 1
+            v = lp.target.id
+            resets = any(isinstance(t, ast.Name) and t.id == v for st in lp.orelse for t, _v, _a in assigned_targets(st)) or any(isinstance(st, (ast.Return, ast.Raise)) for st in lp.orelse)
+            from ..util import parent_map, body_list_of
+            pm = pm or parent_map(fi.node)
+            blk = body_list_of(pm, lp) or []
+            after = blk[blk.index(lp) + 1:] if lp in blk else []
+            used_after = any(isinstance(x, ast.Name) and x.id == v and isinstance(x.ctx, ast.Load) for st in after for x in ast.walk(st))
+            ctx.check(resets or not used_after, R, fi, lp, f"`{v}` is read after the search loop although the loop has no for-else: when no entry matches, `{v}` is the last entry, so a component distributed only along another dimension "
+                      "looks distributed along the costed one and its fanout / stride are used", "search result reset when nothing matched")
+    if n == 0:
+        ctx.ok(R, m, None, "no break-style search loop in spatialable.py (lookups return from inside the loop)", nontrivial=False)
+    # the two lookups return from inside the loop / fall through to default or raise
+    for q in ("Spatialable._get_physical_fanout_along", "Spatialable._get_physical_stride_along"):
+        fi = ctx.func(SP, q, R)
+        ctx.ok(R, fi, fi.node, "lookup present", nontrivial=False)
+
+
 def check(ctx):
     _x4(ctx)
     _x5(ctx)
+    _x6(ctx)
     _check_core(ctx)
 
 
